@@ -133,6 +133,20 @@ class Lazy:
         return f"Lazy({self.ty}:{self.name})"
 
 
+EXPLICIT_DISCS = {'Ordering': [-1, 0, 1]}
+
+
+def disc_for(ety, idx):
+    """discriminant value of variant #idx (index for ordinary enums, declared value for explicit ones)"""
+    t = EXPLICIT_DISCS.get(ety.split('::')[-1]) if ety else None
+    return idx if t is None else t[idx] % (1 << 64)
+
+
+def ordering_enum(lt, eq):
+    d = z3.If(lt, z3.BitVecVal(disc_for('Ordering', 0), 64), z3.If(eq, z3.BitVecVal(0, 64), z3.BitVecVal(1, 64)))
+    return Enum(d, {}, 'Ordering')
+
+
 class Panic:
     """abnormal end of a path. kind: panic | bound | block | infeasible"""
 
@@ -202,9 +216,23 @@ class State:
         self.nfresh = 0
         self._abort = None
         self._ret = None
+        self.model = None
+        self.model_n = 0
 
     def fork(self):
         return copy.deepcopy(self)
+
+    def __deepcopy__(self, memo):
+        c = State.__new__(State)
+        memo[id(self)] = c
+        for k, v in self.__dict__.items():
+            if k == 'model':
+                c.model = v          # z3 models are immutable: share
+            elif k == 'pc':
+                c.pc = list(v)       # z3 expressions are immutable: copy the list only
+            else:
+                setattr(c, k, copy.deepcopy(v, memo))
+        return c
 
     def fresh(self, name, sort):
         self.nfresh += 1
@@ -221,7 +249,8 @@ class Executor:
     def __init__(self, prog: Program, summaries, unwind=8, loop_bounds=None, timeout_ms=60000):
         self.prog, self.types, self.summaries, self.unwind = prog, prog.types, list(summaries), unwind
         self.loop_bounds = loop_bounds or {}  # regex on function name -> bound
-        self.solver = z3.Solver()
+        import os as _os
+        self.solver = z3.SolverFor(_os.environ['MIRSYM_LOGIC']) if _os.environ.get('MIRSYM_LOGIC') else z3.Solver()
         self.solver.set('timeout', timeout_ms)
         self.stats = {'paths': 0, 'solver_calls': 0, 'solver_time': 0.0, 'forks': 0, 'calls_inlined': 0,
                       'blocks': 0, 'summaries_used': {}, 'functions': {}}
@@ -231,10 +260,14 @@ class Executor:
             if ii and ii.trait and last_seg(ii.trait) == 'Drop':
                 self.drop_impls[last_seg(ii.self_ty)] = f
         self.max_paths = 200000
+        self.type_hooks = []
 
     # ------------------------------------------------------------ values
     def fresh_of_type(self, ty, name):
         ty = ty.strip()
+        for pat, mk in self.type_hooks:
+            if re.match(pat, ty):
+                return mk(self, ty, name)
         if ty in INT_TYPES:
             w, s = INT_TYPES[ty]
             return Int(sym(name, z3.BitVecSort(w)), w, s)
@@ -390,7 +423,7 @@ class Executor:
         if len(parts) >= 2:
             vs = self.types.variants('::'.join(parts[:-1]))
             if vs and parts[-1] in vs:
-                return Enum(vs.index(parts[-1]), {}, '::'.join(parts[:-1]))
+                return Enum(disc_for(parts[-2], vs.index(parts[-1])), {}, '::'.join(parts[:-1]))
         return FnItem(c, dict(bind or {}))
 
     def eval_operand(self, st, frame, op):
@@ -487,6 +520,8 @@ class Executor:
             vs = self.types.variants(ety) if ety else None
             if vs and parts[-1] in vs:
                 idx = vs.index(parts[-1])
+                if not rv.args and last_seg(ety) in EXPLICIT_DISCS:
+                    return Enum(disc_for(ety, idx), {}, ety)
                 return Enum(idx, {idx: Agg({i: self.eval_operand(st, frame, a) for i, a in enumerate(rv.args)}, ety + '::' + parts[-1])}, ety)
             if k == 'variant':
                 return Agg({i: self.eval_operand(st, frame, a) for i, a in enumerate(rv.args)}, strip_generics(rv.extra))
@@ -555,12 +590,40 @@ class Executor:
             return Agg({0: Int(x * y, w, s), 1: Bool(ovf)}, 'tuple')
         if op == 'Cmp':
             lt = (x < y) if s else z3.ULT(x, y)
-            d = z3.If(lt, z3.BitVecVal(0, 64), z3.If(x == y, z3.BitVecVal(1, 64), z3.BitVecVal(2, 64)))
-            return Enum(d, {}, 'Ordering')
+            return ordering_enum(lt, x == y)
         raise Unsupported(f"binop {op}")
 
     # ------------------------------------------------------------ solver
+    def _model_ok(self, st):
+        """cached model of st.pc still valid? (pc may have been extended by a harness since it was computed)"""
+        m = getattr(st, 'model', None)
+        if m is None:
+            return None
+        n = getattr(st, 'model_n', 0)
+        if n > len(st.pc):
+            st.model = None
+            return None
+        for c in st.pc[n:]:
+            if not z3.is_true(m.eval(c, model_completion=True)):
+                st.model = None
+                return None
+        st.model_n = len(st.pc)
+        return m
+
     def feasible(self, st, extra=None):
+        """is pc (and extra) satisfiable?  A model of pc is cached on the state: a condition that the cached model
+        already satisfies needs no solver call."""
+        m = self._model_ok(st)
+        if m is not None:
+            if extra is None:
+                return True
+            try:
+                if z3.is_true(m.eval(extra, model_completion=True)):
+                    self.stats['model_hits'] = self.stats.get('model_hits', 0) + 1
+                    self._last_model = m
+                    return True
+            except z3.Z3Exception:
+                pass
         t0 = time.time()
         self.solver.push()
         self.solver.add(*st.pc)
@@ -568,12 +631,20 @@ class Executor:
         if extra is not None:
             self.solver.add(extra)
         r = self.solver.check()
+        self._last_model = self.solver.model() if r == z3.sat else None
         self.solver.pop()
         self.stats['solver_calls'] += 1
         self.stats['solver_time'] += time.time() - t0
         if r == z3.unknown:
             raise Unsupported('solver returned unknown on a feasibility query: ' + self.solver.reason_unknown())
         return r == z3.sat
+
+    def _add(self, st, cond, model):
+        st.pc.append(cond)
+        if model is not None:
+            st.model, st.model_n = model, len(st.pc)
+        else:
+            st.model = None
 
     def fork_on(self, st, cond, carry=None):
         """-> list of (state, carry, truth). carry (any python object graph) is copied consistently with the state."""
@@ -583,12 +654,15 @@ class Executor:
         if z3.is_false(cond):
             return [(st, carry, False)]
         t_ok = self.feasible(st, cond)
-        f_ok = self.feasible(st, z3.Not(cond))
+        mt = self._last_model if t_ok else None
+        ncond = z3.Not(cond)
+        f_ok = self.feasible(st, ncond)
+        mf = self._last_model if f_ok else None
         if t_ok and f_ok:
             self.stats['forks'] += 1
             st2, carry2 = copy.deepcopy((st, carry))
-            st.pc.append(cond)
-            st2.pc.append(z3.Not(cond))
+            self._add(st, cond, mt)
+            self._add(st2, ncond, mf)
             return [(st, carry, True), (st2, carry2, False)]
         if t_ok:
             return [(st, carry, True)]
@@ -603,17 +677,19 @@ class Executor:
             c = z3.simplify(c)
             if z3.is_false(c):
                 continue
-            if z3.is_true(c) or self.feasible(st, c):
-                feas.append((i, c))
+            if z3.is_true(c):
+                feas.append((i, c, None))
+            elif self.feasible(st, c):
+                feas.append((i, c, self._last_model))
         out = []
-        for j, (i, c) in enumerate(feas):
+        for j, (i, c, mdl) in enumerate(feas):
             if j < len(feas) - 1:
                 s2, c2 = copy.deepcopy((st, carry))
                 self.stats['forks'] += 1
             else:
                 s2, c2 = st, carry
             if not z3.is_true(c):
-                s2.pc.append(c)
+                self._add(s2, c, mdl)
             out.append((s2, c2, i))
         return out
 
@@ -671,7 +747,24 @@ class Executor:
         self.stats['blocks'] += 1
         for s in blk.stmts:
             if s.kind == 'assign':
+                if s.rvalue.kind in ('unitvariant', 'variant') and '::' not in strip_generics(s.rvalue.extra):
+                    # bare variant name (`_5 = NOTALLOWED;`): the enum is the destination's declared type
+                    dty = frame.func.locals.get(s.place.local) if not s.place.proj else (s.place.proj[-1][2] if s.place.proj[-1][0] == 'field' else None)
+                    vs = self.types.variants(base_type(subst(dty, frame.bind))) if dty else None
+                    nm = strip_generics(s.rvalue.extra)
+                    if vs and nm in vs:
+                        idx = vs.index(nm)
+                        v = Enum(idx if s.rvalue.args else disc_for(base_type(dty), idx), {idx: Agg({i: self.eval_operand(st, frame, a) for i, a in enumerate(s.rvalue.args)})} if s.rvalue.args else {}, base_type(dty))
+                        cell, path = self.resolve_place(st, frame, s.place)
+                        self.write_path(st, cell, path, v)
+                        continue
+                    raise Unsupported(f"bare variant {s.rvalue.extra} for destination type {dty} in {frame.func.name}")
                 v = self.eval_rvalue(st, frame, s.rvalue)
+                if s.rvalue.kind == 'discriminant' and not s.place.proj:
+                    dty = frame.func.locals.get(s.place.local, 'isize')
+                    if dty in INT_TYPES and INT_TYPES[dty][0] != 64:
+                        w_ = INT_TYPES[dty][0]
+                        v = Int(z3.Extract(w_ - 1, 0, v.bv) if w_ < 64 else z3.ZeroExt(w_ - 64, v.bv), w_, INT_TYPES[dty][1])
                 cell, path = self.resolve_place(st, frame, s.place)
                 self.write_path(st, cell, path, v)
             elif s.kind == 'setdisc':
@@ -709,22 +802,22 @@ class Executor:
                 if z3.is_false(c):
                     continue
                 if z3.is_true(c):
-                    feas = [(c, bb)]
+                    feas = [(c, bb, None)]
                     break
                 if self.feasible(st, c):
-                    feas.append((c, bb))
+                    feas.append((c, bb, self._last_model))
             if not feas:
                 return Panic('INFEASIBLE', 'infeasible')
-            for c, bb in feas[1:]:
+            for c, bb, mdl in feas[1:]:
                 st2 = st.fork()
                 self.stats['forks'] += 1
-                st2.pc.append(c)
+                self._add(st2, c, mdl)
                 r = self.jump(st2, st2.frames[-1], bb)
                 if r is not None:
                     st2._abort = r
                 work.append(st2)
             if len(feas) > 1 or not z3.is_true(feas[0][0]):
-                st.pc.append(feas[0][0])
+                self._add(st, feas[0][0], feas[0][2])
             return self.jump(st, frame, feas[0][1])
         if k == 'assert':
             v = self.eval_operand(st, frame, t.data['op'])
